@@ -83,6 +83,34 @@ def corpus_case(chk, i):
     return Verdict(HELD, name, obs=obs, nontrivial=obs["analysis_runs"] >= 5 and obs["consultations"] > 0, key=name)
 
 
+def nested_case(chk, i):
+    """templates whose members are nested instantiations mixing enclosing parameters, builtins and other templates (facts have to travel
+    through template-argument edges), under the fix-point hooks"""
+    from .. import gen_graph
+    rng = chk.rng("nested", i)
+    d = chk.dir("n%d" % (i % 32))
+    text = gen_graph.generate_nested(rng)
+    hdr = write(os.path.join(d, "n%d.hpp" % i), text)
+    flags = rng.choice([[], ["--with-derive-hash", "--with-derive-eq", "--with-derive-ord", "--with-derive-partialeq", "--with-derive-partialord"],
+                        ["--with-derive-default"], ["--no-layout-tests", "--impl-debug"]])
+    name = "nested-%d" % i
+    rc, out, se, log = hooked(d, "n%d" % i, [hdr] + flags + ["--", "-x", "c++", "-std=c++14"])
+    if rc != 0:
+        return Verdict(HELD, name, obs={"headers_bindgen_rejects": 1})
+    if "BEGIN" not in log:
+        return Verdict(INCONCLUSIVE, name, "hook log missing")
+    obs, consulted, capped = parse_log(log)
+    if capped:
+        return Verdict(VIOLATED, name, "reference iteration did not converge within 10000 sweeps for %s (rule not monotone?)" % capped,
+                       files={"hook.log": log[-5000:], "header.hpp": text}, obs=obs)
+    if consulted:
+        return Verdict(VIOLATED, name, "a fact that is not the fixed point was acted on:\n" + "\n".join(consulted[:8]),
+                       files={"hook.log": log[-8000:], "header.hpp": text, "flags.txt": " ".join(flags)}, obs=obs,
+                       signature=unstable_signature(consulted, flags, text))
+    obs["nested_template_headers"] = 1
+    return Verdict(HELD, name, obs=obs, nontrivial=obs["analysis_runs"] >= 5 and obs["consultations"] > 0, key=name)
+
+
 def item_view(inv):
     """name -> comparable description of every named type (derives, generics, fields, repr, impls, assertions)."""
     view = {}
@@ -258,6 +286,7 @@ def run(chk):
     chk.map(lambda i: corpus_case(chk, i), range(n), budget_s=chk.pick(300, 900))
     chk.map(lambda i: graph_case(chk, i), range(chk.pick(70, 700)), budget_s=chk.pick(400, 3000))
     chk.map(lambda i: types_case(chk, i), range(chk.pick(150, 1500)), budget_s=chk.pick(200, 1200))
+    chk.map(lambda i: nested_case(chk, i), range(chk.pick(150, 1500)), budget_s=chk.pick(200, 1200))
     if not chk.quick():
         chk.map(lambda i: amplifier_case(chk, i), range(60), budget_s=900)
     return chk.finish(
